@@ -9,7 +9,8 @@ Emits coq/generated/Tables_IO.v with
                   - assigns to an attribute `_geoh5`                              (site SHandleStore)
                   - uses an attribute `.geoh5` / `._geoh5` of something: passed as an argument (SHandlePass),
                     a method called on it (SHandleMethod, callee = method name), an attribute read (`.mode`: SHandleAttr),
-                    subscripted (SHandleIndex) or any other use (SHandleOther)
+                    subscripted (SHandleIndex), bound to a local name (SHandleAlias; later uses of that name in the same
+                    function are classified like the attribute itself) or any other use (SHandleOther)
                 each with the enclosing function (Class.func), callee, literal mode, file, first and last line;
   T_fetch       every `fetch_h5_handle(file, mode=...)` inside H5Writer / H5Reader (callee class = the class it sits in);
   T_reader_mut  every statement of H5Reader that could change an HDF5 object (creating calls, subscript stores/deletes on an
@@ -66,6 +67,7 @@ class _Scan(ast.NodeVisitor):
         self.reader_mut = []
         self.parents = {}
         self.alias = rel.startswith(ALIAS_DIRS)
+        self.aliases = []    # per enclosing function: local names bound to the handle
         self.in_io = rel in (WRITER_FILE, READER_FILE)
 
     # -- scope tracking
@@ -79,7 +81,15 @@ class _Scan(ast.NodeVisitor):
 
     def visit_FunctionDef(self, node):
         self.stack.append(node.name)
+        names = set()
+        if not self.in_io and not self.alias:
+            for sub in ast.walk(node):
+                if (isinstance(sub, ast.Assign) and len(sub.targets) == 1 and isinstance(sub.targets[0], ast.Name)
+                        and isinstance(sub.value, ast.Attribute) and sub.value.attr in ("geoh5", "_geoh5")):
+                    names.add(sub.targets[0].id)
+        self.aliases.append(names)
         self.generic_visit(node)
+        self.aliases.pop()
         self.stack.pop()
 
     visit_AsyncFunctionDef = visit_FunctionDef
@@ -124,10 +134,6 @@ class _Scan(ast.NodeVisitor):
         self.reader_mut.append({"site": "SReaderMut", "encl": self._encl(), "cls": "Reader", "callee": what[:60], "mode": "MDefault",
                                 "file": self.rel, "line": node.lineno, "end": getattr(node, "end_lineno", node.lineno)})
 
-    def visit_Name(self, node):
-        if self.rel == READER_FILE and node.id == "H5Writer":
-            self._mut("reference to H5Writer", node)
-
     def _target_mut(self, tgt, node):
         if self.rel != READER_FILE:
             return
@@ -152,37 +158,52 @@ class _Scan(ast.NodeVisitor):
         self.generic_visit(node)
 
     # -- handle uses
+    def _use(self, node, what):
+        """classify one use of the handle (the attribute expression itself or a local alias of it)"""
+        par = self.parents.get(node)
+        if isinstance(par, ast.Attribute):
+            gp = self.parents.get(par)
+            if isinstance(gp, ast.Call) and gp.func is par:
+                self._row("SHandleMethod", "OtherFn", par.attr, "MDefault", node)
+            else:
+                self._row("SHandleAttr", "OtherFn", par.attr, "MDefault", node)
+        elif isinstance(par, ast.Call) and node in par.args:
+            self._row("SHandlePass", "OtherFn", _dotted(par.func) or "<expr>", "MDefault", node)
+        elif isinstance(par, ast.Subscript):
+            self._row("SHandleIndex", "OtherFn", "subscript", "MDefault", node)
+        elif isinstance(par, ast.keyword):
+            self._row("SHandlePass", "OtherFn", "keyword " + str(par.arg), "MDefault", node)
+        elif isinstance(par, (ast.UnaryOp, ast.BoolOp, ast.If, ast.Compare, ast.IfExp)) or (
+                isinstance(par, ast.Call) and _dotted(par.func) == "isinstance"):
+            self._row("SHandleTest", "OtherFn", "truth/identity test", "MDefault", node)
+        elif isinstance(par, ast.Return):
+            self._row("SHandleReturn", "OtherFn", "return", "MDefault", node)
+        elif isinstance(par, ast.withitem):
+            self._row("SHandleWith", "OtherFn", "with", "MDefault", node)
+        elif (isinstance(par, ast.Assign) and par.value is node and len(par.targets) == 1 and isinstance(par.targets[0], ast.Name)
+              and self.stack):
+            # `h = self.geoh5`: a local alias; every later use of `h` in this function is classified like the attribute itself
+            self._row("SHandleAlias", "OtherFn", "alias " + par.targets[0].id, "MDefault", node)
+        else:
+            self._row("SHandleOther", "OtherFn", type(par).__name__, "MDefault", node)
+
     def visit_Attribute(self, node):
         if node.attr in ("geoh5", "_geoh5") and not self.in_io:
-            par = self.parents.get(node)
             inner_is_handle = isinstance(node.value, ast.Attribute) and node.value.attr in ("geoh5", "_geoh5")
             alias = self.alias and not inner_is_handle
             if isinstance(node.ctx, ast.Store):
                 self._row("SWsAlias" if alias else "SHandleStore", "OtherFn", "store " + node.attr, "MDefault", node)
             elif alias:
                 self._row("SWsAlias", "OtherFn", "use " + node.attr, "MDefault", node)
-            elif isinstance(par, ast.Attribute):
-                gp = self.parents.get(par)
-                if isinstance(gp, ast.Call) and gp.func is par:
-                    self._row("SHandleMethod", "OtherFn", par.attr, "MDefault", node)
-                else:
-                    self._row("SHandleAttr", "OtherFn", par.attr, "MDefault", node)
-            elif isinstance(par, ast.Call) and node in par.args:
-                self._row("SHandlePass", "OtherFn", _dotted(par.func) or "<expr>", "MDefault", node)
-            elif isinstance(par, ast.Subscript):
-                self._row("SHandleIndex", "OtherFn", "subscript", "MDefault", node)
-            elif isinstance(par, ast.keyword):
-                self._row("SHandlePass", "OtherFn", "keyword " + str(par.arg), "MDefault", node)
-            elif isinstance(par, (ast.UnaryOp, ast.BoolOp, ast.If, ast.Compare, ast.IfExp)) or (
-                    isinstance(par, ast.Call) and _dotted(par.func) == "isinstance"):
-                self._row("SHandleTest", "OtherFn", "truth/identity test", "MDefault", node)
-            elif isinstance(par, ast.Return):
-                self._row("SHandleReturn", "OtherFn", "return", "MDefault", node)
-            elif isinstance(par, ast.withitem):
-                self._row("SHandleWith", "OtherFn", "with", "MDefault", node)
             else:
-                self._row("SHandleOther", "OtherFn", type(par).__name__, "MDefault", node)
+                self._use(node, node.attr)
         self.generic_visit(node)
+
+    def visit_Name(self, node):
+        if self.rel == READER_FILE and node.id == "H5Writer":
+            self._mut("reference to H5Writer", node)
+        if isinstance(node.ctx, ast.Load) and self.aliases and node.id in self.aliases[-1]:
+            self._use(node, node.id)
 
 
 def extract(repo):
